@@ -4427,6 +4427,9 @@ def ps_rl_ll(ir, instr, dst, src, op, size):
             64: 0x3F}[size]
     mask = m2_expr.ExprInt(mask, dst.size)
 
+    # The count is the low quadword of the source (or the immediate)
+    if src.size > 64:
+        src = src[:64]
     # Saturate the counter to 2**size
     count = src.zeroExtend(dst.size)
     count = m2_expr.ExprCond(count & expr_simp(~mask),
